@@ -324,7 +324,8 @@ def harnesses(tier):
 
 EXPECT = [f"C11.{n}.{o}.{d}d" for n in ("indep", "dep", "clayton") for o in ("grounded", "margin_identity") for d in (2, 3)] + \
          [f"C11.{n}.volume_nonneg.{d}d" for n in ("indep", "dep") for d in (2, 3)] + \
-         ["C11.clayton.copula_value_is_its_definition.2d", "C11.clayton.copula_value_is_its_definition.3d", "C11.clayton.stated_mixed_derivative_is_the_mixed_partial_of_the_copula.2d", "C11.clayton.stated_mixed_derivative_is_the_mixed_partial_of_the_copula.3d", "C11.clayton.conditional_distribution_in_unit_interval", "C11.clayton.conditional_distribution_is_its_closed_form", "C11.clayton.stated_inverse_inverts_the_conditional_distribution"]
+         ["C11.clayton.copula_value_is_its_definition.2d", "C11.clayton.copula_value_is_its_definition.3d", "C11.clayton.stated_mixed_derivative_is_the_mixed_partial_of_the_copula.2d", "C11.clayton.stated_mixed_derivative_is_the_mixed_partial_of_the_copula.3d", "C11.clayton.conditional_distribution_in_unit_interval", "C11.clayton.conditional_distribution_is_its_closed_form", "C11.clayton.stated_inverse_inverts_the_conditional_distribution",
+          "C11.indep.infinite_at_the_all_infinite_vertex.2d", "C11.dep.infinite_at_the_all_infinite_vertex.3d"]
 ATTEMPTED = []
 
 
